@@ -40,6 +40,7 @@ func main() {
 	only := flag.Int("only", -1, "run a single script (index) verbosely")
 	shard := flag.Int("shard", 0, "this process handles scripts with index % nshards == shard")
 	nshards := flag.Int("nshards", 1, "number of shard processes")
+	flag.Int64Var(&maxExecs, "maxexecs", 400000, "per-script cap on model executions (a capped script is reported and not compared)")
 	flag.Parse()
 	t0 := time.Now()
 	all := append(scripts(*depth), curated()...)
